@@ -54,33 +54,40 @@ def convertCurrency (rates : List (String × F)) (v : F) (src tgt : String) : F 
   | some r => Num.mul asUsd r
   | none => Num.ofInt 0
 
-/-- `DateItem::calculate` (after the repairs in /repo: checked constructors) -/
-def dateCalc (t : YMD) (secs : Int) (add : Bool) : Option YMD := do
-  -- years
+/-- `DateItem::calculate`, first step: whole 365-day "years" of the duration move the year -/
+def dateYears (t : YMD) (secs : Int) (add : Bool) : Option (YMD × Int) :=
   let ny : Int := (secs.natAbs : Int) / YEAR
-  let (t, secs) ← (if ny = 0 then some (t, secs) else do
-      let y' := if add then t.y + ny else t.y - ny
-      let t' ← fromYmd? y' t.m t.d
-      let s' := secs - YEAR * ny
-      if durOk s' then some (t', s') else none)
-  -- months
+  if ny = 0 then some (t, secs) else
+    match fromYmd? (if add then t.y + ny else t.y - ny) t.m t.d with
+    | none => none
+    | some t' => if durOk (secs - YEAR * ny) then some (t', secs - YEAR * ny) else none
+
+/-- second step: whole 30-day "months" of the rest move the month (after the repairs in /repo:
+    months counted from zero when adding; subtraction wraps to December WITHOUT borrowing a year,
+    as pinned by executer_test execute_21..23) -/
+def dateMonths (t : YMD) (secs : Int) (add : Bool) : Option (YMD × Int) :=
   let nm : Int := (secs.natAbs : Int) / MONTH
-  let (t, secs) ← (if nm = 0 then some (t, secs) else
-      if add then do
+  if nm = 0 then some (t, secs) else
+    let target : Option YMD :=
+      if add then
         let total : Int := (t.m : Int) - 1 + nm
-        let t' ← fromYmd? (t.y + total / 12) ((total % 12).toNat + 1) t.d
-        let s' := secs - MONTH * nm
-        if durOk s' then some (t', s') else none
-      else do
-        let years := t.y - nm / 12
+        fromYmd? (t.y + total / 12) ((total % 12).toNat + 1) t.d
+      else
         let months : Int := (t.m : Int) - nm % 12
-        let months := if months ≤ 0 then months + 12 else months
-        let t' ← fromYmd? years months.toNat t.d
-        let s' := secs - MONTH * nm
-        if durOk s' then some (t', s') else none)
-  -- remaining whole days
-  let days := Int.tdiv secs 86400
-  addDays? t (if add then days else -days)
+        fromYmd? (t.y - nm / 12) (if months ≤ 0 then months + 12 else months).toNat t.d
+    match target with
+    | none => none
+    | some t' => if durOk (secs - MONTH * nm) then some (t', secs - MONTH * nm) else none
+
+/-- `DateItem::calculate` (after the repairs in /repo: checked constructors): years, months, then
+    the remaining whole days -/
+def dateCalc (t : YMD) (secs : Int) (add : Bool) : Option YMD :=
+  match dateYears t secs add with
+  | none => none
+  | some (t1, s1) =>
+    match dateMonths t1 s1 add with
+    | none => none
+    | some (t2, s2) => addDays? t2 (if add then Int.tdiv s2 86400 else -(Int.tdiv s2 86400))
 
 /-- NaiveDateTime range check (the date part must be representable) -/
 def dateTimeOk (secs : Int) : Bool := minDay ≤ secs / 86400 && secs / 86400 ≤ maxDay
